@@ -26,7 +26,7 @@ from sim import child, gen
 ID = 'C20'
 LEVEL = 'exploration'
 TIERS = {
-    'quick': {'subseeds': 96, 'schedules': 3, 'xproc_every': 6, 'hashseeds': 3, 'wall_budget': 240, 'min_runs': 150},
+    'quick': {'subseeds': 192, 'schedules': 3, 'xproc_every': 6, 'hashseeds': 3, 'wall_budget': 240, 'min_runs': 150},
     'thorough': {'subseeds': 3000, 'schedules': 6, 'xproc_every': 8, 'hashseeds': 6, 'wall_budget': 3000,
                  'min_runs': 300},
 }
